@@ -281,8 +281,15 @@ func c10Decor(w *c11World, c *c11Cfg, dirs []*graphql.Directive, full bool) stri
 // ---------------------------------------------------------------- introspection JSON -> Gallina description
 
 type c10Proj struct {
-	fail string
-	full bool // false: the library's own types are left out of the description
+	fail      string
+	full      bool // false: the library's own types are left out of the description
+	unordered bool // types, the fields of a type or its input fields were not listed in name order
+}
+
+func (p *c10Proj) noteOrder(xs []c10Named) {
+	if !sort.SliceIsSorted(xs, func(i, j int) bool { return xs[i].name < xs[j].name }) {
+		p.unordered = true
+	}
 }
 
 func (p *c10Proj) str(x interface{}) string {
@@ -443,11 +450,12 @@ func (p *c10Proj) description(data interface{}) string {
 		p.fail = "no __schema in the result"
 		return ""
 	}
-	var types []c10Named
+	var types, allTypes []c10Named
 	tl, _ := p.list(sch["types"])
 	for _, e := range tl {
 		m, _ := e.(map[string]interface{})
 		name := p.str(m["name"])
+		allTypes = append(allTypes, c10Named{name: name})
 		if !p.full && c10BuiltinNames[name] {
 			continue
 		}
@@ -461,6 +469,7 @@ func (p *c10Proj) description(data interface{}) string {
 				n := p.str(fm["name"])
 				xs = append(xs, c10Named{n, fmt.Sprintf("(DF %s %s %s %s %s %s)", c10Bytes(n), c10Text(p.str(fm["description"])), p.inputs(fm["args"]), t, coqBool(dep), p.optStr(fm["deprecationReason"]))})
 			}
+			p.noteOrder(xs)
 			fields = "(Some " + c10Sorted(xs) + ")"
 		}
 		enums := "None"
@@ -476,11 +485,20 @@ func (p *c10Proj) description(data interface{}) string {
 		}
 		inputs := "None"
 		if m["inputFields"] != nil {
+			if l, _ := m["inputFields"].([]interface{}); true {
+				var ns []c10Named
+				for _, ie := range l {
+					im, _ := ie.(map[string]interface{})
+					ns = append(ns, c10Named{name: p.str(im["name"])})
+				}
+				p.noteOrder(ns)
+			}
 			inputs = "(Some " + p.inputs(m["inputFields"]) + ")"
 		}
 		types = append(types, c10Named{name, fmt.Sprintf("(DT %s %s %s %s %s %s %s %s)", c10Bytes(p.str(m["kind"])), c10Bytes(name), c10Text(p.str(m["description"])),
 			fields, p.refs(m["interfaces"]), p.refs(m["possibleTypes"]), enums, inputs)})
 	}
+	p.noteOrder(allTypes)
 	var dirs []c10Named
 	dl, _ := p.list(sch["directives"])
 	for _, e := range dl {
@@ -552,8 +570,55 @@ func genC10(tier string, seed uint64, n int, e *Emitter) {
 			later = append(later, later[0]) // appended twice
 		}
 		c.Types = keep
-		c10RunCase(e, r, c, later, i%8 == 0, nil)
+		var tags []string
+		if r.Chance(85) {
+			// a carrier appended after construction: a union whose member is a fresh object (reachable from
+			// nowhere else) that implements an interface the schema already has; the interface's
+			// possibleTypes must then list the new object, as in the same schema built at once
+			if u := c10LateImplementer(r, c); u >= 0 {
+				k := r.Intn(len(later) + 1)
+				later = append(later[:k], append([]int{u}, later[k:]...)...)
+				tags = append(tags, "late-implementer")
+			}
+		}
+		c10RunCase(e, r, c, later, i%8 == 0, tags)
 	}
+}
+
+// adds an object implementing an interface of the schema as constructed (same fields and
+// arguments as the interface declares) and a union around it; returns the union's id, or -1
+func c10LateImplementer(r *Rng, c *c11Cfg) int {
+	reach := c11Reachable(c, nil)
+	var ifaces []*c11Def
+	next := 0
+	for _, d := range c.Defs {
+		if d.Kind == c11Interface && reach[d.ID] && len(d.Fields) > 0 {
+			ifaces = append(ifaces, d)
+		}
+		if d.ID >= next {
+			next = d.ID + 1
+		}
+	}
+	if len(ifaces) == 0 {
+		return -1
+	}
+	iface := ifaces[r.Intn(len(ifaces))]
+	o := &c11Def{ID: next, Kind: c11Object, Name: fmt.Sprintf("Late%d", next), Desc: "appended through a union", IsTypeOf: true,
+		Slot: c11SlotList, Members: []int{iface.ID}, Thunk: r.Bool()}
+	for _, f := range iface.Fields {
+		g := f
+		g.Args = append([]c11Arg{}, f.Args...)
+		o.Fields = append(o.Fields, g)
+	}
+	if r.Bool() {
+		o.Fields = append(o.Fields, c11Field{Name: "lateOnly", T: c11Named(c11IDString)})
+	}
+	u := &c11Def{ID: next + 1, Kind: c11Union, Name: fmt.Sprintf("LateU%d", next+1), ResolveType: true, Slot: c11SlotList, Members: []int{o.ID}}
+	if r.Bool() {
+		u.Slot = c11SlotThunk
+	}
+	c.Defs = append(c.Defs, o, u)
+	return u.ID
 }
 
 // the defaultValue strings of an introspection result, keyed like c10Defaults
@@ -736,7 +801,7 @@ func c10RunCase(e *Emitter, r *Rng, c *c11Cfg, later []int, full bool, tags []st
 	if full {
 		base.Tags = append(base.Tags, "with-library-types")
 	}
-	base.Coq = fmt.Sprintf("IntroCase %s %s %s %s %s %s", coqBool(full), c11CfgCoq(c), app, decor, d, coqList(subs))
+	base.Coq = fmt.Sprintf("IntroCase %s %s %s %s %s %s %s", coqBool(full), c11CfgCoq(c), app, decor, d, coqBool(!p.unordered), coqList(subs))
 	e.Emit(base)
 }
 
